@@ -13,7 +13,9 @@
      WCert, Wait              the certificate files are rewritten; more than reload_interval passes (abstract clock: R = 2,
                               everything else takes no time -- the driver enforces that and discards scripts that were slow)
      WCA / RaceWrite          client CA file: rewrite in place (two Write events), replace by rename (Chmod + Remove on the
-                              old inode, the watch is on a dead inode), remove (same, file gone), create, chmod
+                              old inode, the watch is on a dead inode), remove (same, file gone), create, chmod; with the
+                              directory watch of the repair also Create (create, rename into place) and the events of a
+                              file whose own watch is lost
      Handle                   clientCAsFileReloader.handleWatcherEvents: one event; Remove / Chmod: watcher.Remove +
                               watcher.Add (fails when the file does not exist: the watch is LOST), reload; Write: reload;
                               reload keeps the old pool when the file is unreadable / invalid
@@ -22,10 +24,14 @@
    hist is the history in the vocabulary of TLSObs.tla; js is the statement state after it (js' = StepEv(cfg, js, event)):
    the design property is JsOK (no clause of the statement is contradicted by any behaviour of the model).
 
-   Variant:  "fixed"   getClientConfig carries the cipher suites over (extras/fixes/E10-*.patch)            -> JsOK holds
-             "pinned"  the pinned code: the tls.Config returned by getClientConfig has NO CipherSuites        -> TLC refutes
-             "eager"   negative control: GetCertificate reloads whenever reloading is configured (no interval) -> refuted
-             "stale"   negative control: the watcher's reload does not replace the pool                         -> refuted *)
+   Variant:  "fixed"        both repairs of extras/fixes/E10-*.patch: getClientConfig carries the cipher suites over; the
+                            watcher also watches the directory of the client CA file (Create events)    -> JsOK holds
+             "pinned"       the pinned code (both defects)                                               -> TLC refutes
+             "pinnedsuites" only: the tls.Config returned by getClientConfig has NO CipherSuites         -> refuted (CipherSuites)
+             "pinnedwatch"  only: no directory watch -- after a removal watcher.Add fails, the watch is lost, a file
+                            created again and every later change go unnoticed                             -> refuted (ClientCAReload)
+             "eager"        negative control: GetCertificate reloads whenever reloading is configured     -> refuted
+             "stale"        negative control: the watcher's reload does not replace the pool              -> refuted *)
 EXTENDS TLSObs
 
 CONSTANTS Configs, Variant, MaxOps, Threads, Probes, BatchSizes, PairPool, CAWrites, Races
@@ -95,7 +101,9 @@ Load == /\ phase \in {"new", "validated"}
 (* ---------------- handshakes ---------------- *)
 Quiet == phase = "loaded" /\ ~batch.on /\ nops < MaxOps
 
-ImplSuites(c) == IF Variant = "pinned" /\ c.role = "server" /\ c.ccar /\ c.cca \in CANames THEN Suites ELSE OwnSuites(c)
+SuitesDropped == Variant \in {"pinned", "pinnedsuites"}
+DirWatch      == Variant \notin {"pinned", "pinnedwatch"}
+ImplSuites(c) == IF SuitesDropped /\ c.role = "server" /\ c.ccar /\ c.cca \in CANames THEN Suites ELSE OwnSuites(c)
 ImplCommon(c, p) == {s \in ImplSuites(c) \cap PeerSuites(p) : SuiteMin(s) <= HsVer(c, p)}
 
 StartBatch(p, n, race, how, cac) ==
@@ -143,11 +151,14 @@ HsFin(t) ==
 (* ---------------- files ---------------- *)
 CAEffect(how, content) ==
     /\ disk' = [disk EXCEPT !.ca = IF how = "remove" THEN "missing" ELSE IF how = "chmod" THEN disk.ca ELSE content]
-    /\ evq' = IF ~watched THEN evq
-              ELSE CASE how = "rewrite" -> evq \o <<"write", "write">>
-                     [] how \in {"replace", "remove"} -> evq \o <<"chmod", "remove">>
-                     [] how = "chmod" -> evq \o <<"chmod">>
-                     [] OTHER -> evq
+    /\ evq' = IF ~cfg.ccar THEN evq ELSE
+              evq \o (IF watched \/ DirWatch
+                       THEN CASE how = "rewrite" -> <<"write", "write">>
+                              [] how \in {"replace", "remove"} -> <<"chmod", "remove">>
+                              [] how = "chmod" -> <<"chmod">>
+                              [] OTHER -> <<>>
+                       ELSE <<>>)
+                   \o (IF DirWatch /\ how \in {"replace", "create"} THEN <<"create">> ELSE <<>>)
     /\ watched' = IF how \in {"replace", "remove"} THEN FALSE ELSE watched
 
 CAHowOK(how) == CASE how = "create" -> disk.ca = "missing"
